@@ -253,15 +253,19 @@ def dup_cases(ctx):
         lists.append([(rng.choice(names), rng.choice(["v%d" % i, None, "", "a b"])) for i in range(rng.randint(1, 7))])
 
     def concat(d, k, v):
-        d[k] = d[k] + "," + v
+        # the builder hands every callable a string (a valueless attribute is the empty string)
+        d[k] = "%s,%s" % (d[k], "<None>" if v is None else v)
     policies = [("replace", "replace", 0), ("default", None, 0), ("ignore", "ignore", 1), ("callable", concat, 2)]
     cmds, cases = [], []
     for pname, pol, pid in policies:
         for al in lists:
             markup = "<a " + " ".join(k if v is None else '%s="%s"' % (k, v) for k, v in al) + "></a>"
             kw = {} if pname == "default" else {"on_duplicate_attribute": pol}
-            soup = BeautifulSoup(markup, "html.parser", multi_valued_attributes=None, **kw)
-            got = list(soup.a.attrs.items())
+            try:
+                soup = BeautifulSoup(markup, "html.parser", multi_valued_attributes=None, **kw)
+                got = list(soup.a.attrs.items())
+            except Exception as e:
+                got = "EXC:" + type(e).__name__
             case = {"policy": pname, "attributes": al}
             ctx.case(("dup", pname, repr(al)), nontrivial=len({k for k, _ in al}) < len(al))
             vals = {}
